@@ -247,7 +247,7 @@ func verifyDelayPeriodPassed(ctx sdk.Context, store sdk.KVStore, proofHeight exp
 	currentTimestamp := uint64(ctx.BlockTime().UnixNano())
 	validTime := processedTime + delayPeriod
 	// NOTE: delay period is inclusive, so if currentTimestamp is validTime, then we return no error
-	if validTime > currentTimestamp {
+	if validTime < processedTime || validTime > currentTimestamp {
 		return sdkerrors.Wrapf(
 			ErrDelayPeriodNotPassed,
 			"cannot verify packet until time: %d, current time: %d",
